@@ -156,6 +156,8 @@ class ForecasterOnePhase:
             p0,
             bounds=bounds,
             gtol=None,  # an absolute gradient tolerance is not invariant to the scale of M
+            # nor is the step tolerance on the unscaled (M, tau), which can differ by many decades
+            x_scale=[abs(guess) if guess else 1.0 for guess in p0],
         )
         self.time_on_production = time_on_production
         self.cum_production = cum_production
